@@ -67,6 +67,7 @@ type RT struct {
 	hash        uint64
 	Panics      []PanicInfo
 	Adhoc       int
+	Foreign     int // hook calls from goroutines not started under this runtime (ignored)
 	aborted     bool
 	AbortReason string
 	Hang        bool
@@ -95,8 +96,11 @@ type RT struct {
 	KeepTrace bool
 }
 
+var epoch uint64
+
 func New(d Drawer) *RT {
-	return &RT{tasks: map[uint64]*task{}, parked: map[string]*task{}, pending: map[uint64]string{},
+	epoch++
+	return &RT{nextTok: epoch << 32, tasks: map[uint64]*task{}, parked: map[string]*task{}, pending: map[uint64]string{},
 		notify: make(chan struct{}, 1), D: d, MaxSteps: 200000, stepHooks: map[int][]func(){}, policy: -1}
 }
 
@@ -110,16 +114,17 @@ func goid() uint64 {
 	return v
 }
 
+// cur returns the task of the calling goroutine, or nil for a goroutine that
+// was not started under this runtime (a left-over of an earlier case, or a
+// goroutine created by a dependency). Such goroutines are never parked: they
+// could not be woken from inside the bubble.
 func (r *RT) cur() *task {
 	g := goid()
 	r.mu.Lock()
 	defer r.mu.Unlock()
 	t := r.tasks[g]
 	if t == nil {
-		r.Adhoc++
-		t = &task{id: fmt.Sprintf("adhoc%d", r.Adhoc), wake: make(chan struct{})}
-		r.tasks[g] = t
-		r.live++ // never decremented: an adhoc task is a harness bug and is reported
+		r.Foreign++
 	}
 	return t
 }
@@ -132,6 +137,9 @@ func (r *RT) poke() {
 }
 
 func (r *RT) park(t *task, label string, ok func() bool) {
+	if t == nil {
+		return
+	}
 	r.mu.Lock()
 	if r.aborted {
 		r.mu.Unlock()
@@ -159,6 +167,9 @@ func (r *RT) Sleep(d time.Duration, label string) {
 }
 
 func (r *RT) IO(label string) {
+	if r.cur() == nil {
+		return
+	}
 	r.mu.Lock()
 	r.IOCount++
 	n := r.IOCount
@@ -180,6 +191,9 @@ func (r *RT) IO(label string) {
 // calling task never runs again and no other task is released any more.
 func (r *RT) Freeze(reason string) {
 	t := r.cur()
+	if t == nil {
+		return
+	}
 	r.mu.Lock()
 	r.aborted = true
 	r.AbortReason = reason
@@ -190,6 +204,9 @@ func (r *RT) Freeze(reason string) {
 
 func (r *RT) PreSpawn() uint64 {
 	t := r.cur()
+	if t == nil {
+		return 0
+	}
 	r.mu.Lock()
 	defer r.mu.Unlock()
 	t.nkids++
@@ -202,7 +219,12 @@ func (r *RT) PreSpawn() uint64 {
 func (r *RT) GoStart(tok uint64) {
 	g := goid()
 	r.mu.Lock()
-	id := r.pending[tok]
+	id, ok := r.pending[tok]
+	if !ok { // token of another runtime: a left-over goroutine of an earlier case
+		r.Foreign++
+		r.mu.Unlock()
+		return
+	}
 	delete(r.pending, tok)
 	t := &task{id: id, wake: make(chan struct{})}
 	r.tasks[g] = t
@@ -253,6 +275,15 @@ func (r *RT) GoEnd(rec any, stack []byte) {
 	g := goid()
 	r.mu.Lock()
 	t := r.tasks[g]
+	if t == nil {
+		// not one of ours (see cur): do not touch the scheduler
+		r.Foreign++
+		r.mu.Unlock()
+		if rec != nil {
+			panic(rec)
+		}
+		return
+	}
 	delete(r.tasks, g)
 	r.live--
 	if rec != nil {
@@ -495,4 +526,9 @@ func (r *RT) Run() {
 func (r *RT) Hash() uint64 { return r.hash }
 
 // TaskID returns the deterministic id of the calling task.
-func (r *RT) TaskID() string { return r.cur().id }
+func (r *RT) TaskID() string {
+	if t := r.cur(); t != nil {
+		return t.id
+	}
+	return "foreign"
+}
